@@ -24,14 +24,15 @@ type c14LoadState struct {
 }
 
 type c14LoadCase struct {
-	Version  string         `json:"version"`
-	Events   []vfBytes      `json:"events"`
-	Rejected []int          `json:"rejected,omitempty"`
-	Input    []int          `json:"input"` // the PDUs of the answer in wire order; a repeated index is the same PDU twice
-	Faults   []c14Fault     `json:"faults,omitempty"`
-	Prov     c14Script      `json:"provider"`
-	States   []c14LoadState `json:"states"` // what the state provider reports before each input event
-	Order    string         `json:"order"`  // prev | auth
+	SoftFailFlag bool           `json:"soft_fail_flag,omitempty"`
+	Version      string         `json:"version"`
+	Events       []vfBytes      `json:"events"`
+	Rejected     []int          `json:"rejected,omitempty"`
+	Input        []int          `json:"input"` // the PDUs of the answer in wire order; a repeated index is the same PDU twice
+	Faults       []c14Fault     `json:"faults,omitempty"`
+	Prov         c14Script      `json:"provider"`
+	States       []c14LoadState `json:"states"` // what the state provider reports before each input event
+	Order        string         `json:"order"`  // prev | auth
 	// Split > 0 (C11/ordering/backfill only): the answer is served by two servers, the first one
 	// with the inputs from position Split on (descendants first), the second one with the rest
 	Split int `json:"split,omitempty"`
@@ -64,7 +65,7 @@ var c14LoadFaultKinds = []string{
 func c14GenLoad(t *rapid.T) c14LoadCase {
 	w := c14GenWorld(t, 5, 22)
 	r := w.r
-	c := c14LoadCase{Version: r.Version}
+	c := c14LoadCase{Version: r.Version, SoftFailFlag: rapid.IntRange(0, 2).Draw(t, "softFailFlag") == 0}
 	n := rapid.IntRange(1, 6).Draw(t, "nInput")
 	var pref []int
 	for _, e := range r.Events {
@@ -328,7 +329,11 @@ func c14CheckLoad(ctx *vfCtx, c c14LoadCase) {
 	}
 	var asked []string
 	prov := c14LibProvider(room, c.Prov, &asked)
-	loader := NewEventsLoader(RoomVersion(c.Version), c14Verifier(), sp, prov, false)
+	// (the last argument asks for a soft-fail check the library documents as not implemented: it changes no verdict)
+	loader := NewEventsLoader(RoomVersion(c.Version), c14Verifier(), sp, prov, c.SoftFailFlag)
+	if c.SoftFailFlag {
+		ctx.Class("loader/soft-fail-check-requested")
+	}
 	var results []EventLoadResult
 	var err error
 	panicked := c14Catch(ctx, "C14/load-and-verify", lists, false, func() {
